@@ -20,14 +20,19 @@ Record tables := {
   tExca : list Z; tAct : list Z; tPact : list Z; tPgo : list Z; tR1 : list Z; tR2 : list Z;
   tChk : list Z; tDef : list Z; tTok1 : list Z; tTok2 : list Z; tTok3 : list Z;
   tLast : Z; tPrivate : Z; tFlag : Z; tErrCode : Z; tEofCode : Z;
-  tActions : list (Z * (Z * (Z * Z)))
+  tActions : list (Z * (Z * (Z * Z)));
+  (* per rule: the dynamic type assertions yyDollar[k].value.(T) as (k, type id) and what the action stores in
+     yyVAL.value: (0, type id) a value of that static type | (1, k) yyDollar[k].value unchanged |
+     (2, _) nothing: goyacc's default $$ = $1 | (3, _) unknown.  Type ids: 0 = nil interface (token slots),
+     -1 = unknown, > 0 = a Go type (coq/gen/GenTables.v lists them) *)
+  tSem : list (Z * (list (Z * Z) * (Z * Z)))
 }.
 
 Definition the_tables : tables := {|
   tExca := yyExca; tAct := yyAct; tPact := yyPact; tPgo := yyPgo; tR1 := yyR1; tR2 := yyR2;
   tChk := yyChk; tDef := yyDef; tTok1 := yyTok1; tTok2 := yyTok2; tTok3 := yyTok3;
   tLast := yyLast; tPrivate := yyPrivate; tFlag := yyFlag; tErrCode := yyErrCode; tEofCode := yyEofCode;
-  tActions := yyActions |}.
+  tActions := yyActions; tSem := yySem |}.
 
 Inductive res (A : Type) : Type := Ok (a : A) | Panic (site : nat).
 Arguments Ok {A} a.
@@ -135,7 +140,8 @@ Fixpoint action_of (n : Z) (l : list (Z * (Z * (Z * Z)))) : option (Z * (Z * Z))
 (* stk: the states yyS[yyp].yys, yyS[yyp-1].yys, ... yyS[0].yys (top first); char/token: yyrcvr.char and
    yytoken; inp: what the following Lex calls will return (eof = -1 once exhausted);
    nlex: number of Lex calls made; errat: nlex at the last call of yylex.Error (-1: none) *)
-Record cfg := { stk : list Z; char : Z; token : Z; errflag : Z; inp : list Z; nlex : Z; errat : Z }.
+(* vals: the dynamic type (id) of yyS[i].value for the same positions as stk *)
+Record cfg := { stk : list Z; vals : list Z; char : Z; token : Z; errflag : Z; inp : list Z; nlex : Z; errat : Z }.
 
 Inductive sres := Cont (c : cfg) | Accept (c : cfg) | Reject (c : cfg) | Crash (site : nat).
 
@@ -146,20 +152,42 @@ Definition ensure_la (c : cfg) : res cfg :=
   if char c <? 0 then
     let (ch, r) := lexcall (inp c) in
     tk <- yylex1 ch ;;
-    Ok {| stk := stk c; char := ch; token := tk; errflag := errflag c; inp := r; nlex := nlex c + 1; errat := errat c |}
+    Ok {| stk := stk c; vals := vals c; char := ch; token := tk; errflag := errflag c; inp := r; nlex := nlex c + 1; errat := errat c |}
   else Ok c.
 
-(* for yyp >= 0 { …errshift… ; yyp-- } ; goto ret1 *)
-Fixpoint recover_stk (s : list Z) : res (option (list Z)) :=
+(* for yyp >= 0 { …errshift… ; yyp-- } ; goto ret1        — the pushed slot gets the stale yyVAL: unknown type *)
+Fixpoint recover_stk (s : list Z) (v : list Z) : res (option (list Z * list Z)) :=
   match s with
   | [] => Ok None
   | st :: rest =>
       e <- errshift_of st ;;
       match e with
-      | Some ns => Ok (Some (ns :: st :: rest))
-      | None => recover_stk rest
+      | Some ns => Ok (Some (ns :: st :: rest, (-1) :: v))
+      | None => recover_stk rest (tl v)
       end
   end.
+
+Fixpoint sem_of (n : Z) (l : list (Z * (list (Z * Z) * (Z * Z)))) : option (list (Z * Z) * (Z * Z)) :=
+  match l with
+  | [] => None
+  | (m, d) :: r => if m =? n then Some d else sem_of n r
+  end.
+
+(* yyDollar[k].value for 1 <= k <= r2: the slot r2-k below the top *)
+Definition slot (v : list Z) (r2 k : Z) : option Z :=
+  if (1 <=? k) && (k <=? r2) then nth_error v (Z.to_nat (r2 - k)) else None.
+
+(* every `yyDollar[k].value.(T)` of the action finds exactly the dynamic type T *)
+Definition asserts_hold (v : list Z) (r2 : Z) (asserts : list (Z * Z)) : bool :=
+  forallb (fun a => match slot v r2 (fst a) with Some ty => ty =? snd a | None => false end) asserts.
+
+(* the dynamic type of the new yyVAL.value *)
+Definition stored (v : list Z) (r2 : Z) (o : Z * Z) : res Z :=
+  let default := if 1 <=? r2 then match slot v r2 1 with Some ty => Ok ty | None => Panic 72 end else Ok (-1) in
+  if fst o =? 0 then Ok (snd o)
+  else if fst o =? 1 then match slot v r2 (snd o) with Some ty => Ok ty | None => Panic 71 end
+  else if fst o =? 2 then default
+  else Ok (-1).
 
 (* reduction by production n (also reached with n = 0 when Errflag is outside 0..3: Go's switch has no default) *)
 Definition reduce (c : cfg) (n : Z) : sres :=
@@ -175,33 +203,41 @@ Definition reduce (c : cfg) (n : Z) : sres :=
   | [] => Crash 34                                      (* yyS[yyp].yys with yyp < 0 *)
   | base :: below =>
       match goto_of base nt with Panic s => Crash s | Ok ns =>
-      match action_of n (tActions T) with
-      | Some (k, (lo, hi)) =>
-          if yyp - k <? 0 then Crash 40                 (* yyDollar = yyS[yypt-K : yypt+1] *)
-          else if (lo <=? hi) && ((lo <? 0) || (hi >? k)) then Crash 41   (* yyDollar[i], len(yyDollar) = K+1 *)
-          else Cont {| stk := ns :: base :: below; char := char c; token := token c; errflag := errflag c;
-                       inp := inp c; nlex := nlex c; errat := errat c |}
-      | None => Cont {| stk := ns :: base :: below; char := char c; token := token c; errflag := errflag c;
-                        inp := inp c; nlex := nlex c; errat := errat c |}
+      let slicing_ok :=
+        match action_of n (tActions T) with
+        | Some (k, (lo, hi)) =>
+            if yyp - k <? 0 then Some 40%nat            (* yyDollar = yyS[yypt-K : yypt+1] *)
+            else if (lo <=? hi) && ((lo <? 0) || (hi >? k)) then Some 41%nat   (* yyDollar[i], len(yyDollar) = K+1 *)
+            else None
+        | None => None
+        end in
+      match slicing_ok with Some e => Crash e | None =>
+      let (asserts, o) := match sem_of n (tSem T) with Some d => d | None => ([], (2, 0)) end in
+      if negb (asserts_hold (vals c) r2 asserts) then Crash 70      (* yyDollar[k].value.(T) *)
+      else match stored (vals c) r2 o with Panic e => Crash e | Ok ty =>
+           Cont {| stk := ns :: base :: below; vals := ty :: skipn (Z.to_nat r2) (vals c);
+                   char := char c; token := token c; errflag := errflag c;
+                   inp := inp c; nlex := nlex c; errat := errat c |}
+           end
       end end
   end end end end.
 
 (* if yyn == 0 { switch Errflag { case 0: Error(); fallthrough; case 1, 2: …; case 3: … } } *)
 Definition on_error (c : cfg) : sres :=
   let recover (c : cfg) :=
-    match recover_stk (stk c) with
+    match recover_stk (stk c) (vals c) with
     | Panic s => Crash s
     | Ok None => Reject c
-    | Ok (Some st') => Cont {| stk := st'; char := char c; token := token c; errflag := 3; inp := inp c;
-                               nlex := nlex c; errat := errat c |}
+    | Ok (Some (st', v')) => Cont {| stk := st'; vals := v'; char := char c; token := token c; errflag := 3; inp := inp c;
+                                      nlex := nlex c; errat := errat c |}
     end in
   if errflag c =? 0 then
-    recover {| stk := stk c; char := char c; token := token c; errflag := errflag c; inp := inp c;
+    recover {| stk := stk c; vals := vals c; char := char c; token := token c; errflag := errflag c; inp := inp c;
                nlex := nlex c; errat := nlex c |}
   else if (errflag c =? 1) || (errflag c =? 2) then recover c
   else if errflag c =? 3 then
     if token c =? tEofCode T then Reject c
-    else Cont {| stk := stk c; char := -1; token := -1; errflag := errflag c; inp := inp c; nlex := nlex c; errat := errat c |}
+    else Cont {| stk := stk c; vals := vals c; char := -1; token := -1; errflag := errflag c; inp := inp c; nlex := nlex c; errat := errat c |}
   else reduce c 0.
 
 (* yydefault *)
@@ -225,7 +261,8 @@ Definition step (c : cfg) : sres :=
       match ensure_la c with Panic e => Crash e | Ok c1 =>
       match shift_of s (token c1) with Panic e => Crash e
       | Ok (Some a) =>
-          Cont {| stk := a :: stk c1; char := -1; token := -1;
+          (* yyVAL = yyrcvr.lval: the lexer never writes lval.value, the slot holds the nil interface *)
+          Cont {| stk := a :: stk c1; vals := 0 :: vals c1; char := -1; token := -1;
                   errflag := (if errflag c1 >? 0 then errflag c1 - 1 else errflag c1);
                   inp := inp c1; nlex := nlex c1; errat := errat c1 |}
       | Ok None => dflt c1 s
@@ -233,7 +270,7 @@ Definition step (c : cfg) : sres :=
   end.
 
 Definition init (i : list Z) : cfg :=
-  {| stk := [0]; char := -1; token := -1; errflag := 0; inp := i; nlex := 0; errat := -1 |}.
+  {| stk := [0]; vals := [0]; char := -1; token := -1; errflag := 0; inp := i; nlex := 0; errat := -1 |}.
 
 Inductive outcome := OAccept (c : cfg) | OReject (c : cfg) | OPanic (site : nat) | OFuel (c : cfg).
 
